@@ -293,7 +293,14 @@ pub struct Interp<'a> {
     pub excluded_known: u64,
     /// pay the node's value for the known C06 block-1 proposer clamp so histories continue
     pub tolerate_reward_quirk: bool,
+    /// optional replacement of `build_tx` (C18 extends the script universe of the outputs)
+    pub tx_builder: Option<TxBuilderFn>,
+    /// optional replacement of the spendable-cell filter used with `tx_builder`
+    pub spendable_filter: Option<fn(&Env, &LiveCell) -> bool>,
 }
+
+/// signature of `build_tx`
+pub type TxBuilderFn = fn(&Env, &TxStep, &mut BTreeMap<CellKey, (CellOutput, usize)>) -> Option<TransactionView>;
 
 impl<'a> Interp<'a> {
     pub fn new(env: &'a Env) -> Self {
@@ -305,6 +312,8 @@ impl<'a> Interp<'a> {
             labels: BTreeMap::new(),
             excluded_known: 0,
             tolerate_reward_quirk: true,
+            tx_builder: None,
+            spendable_filter: None,
         }
     }
 
@@ -449,7 +458,10 @@ impl<'a> Interp<'a> {
         let st = &self.tree.get(parent).state;
         st.live
             .iter()
-            .filter(|(_, c)| is_spendable_lock(self.env, &c.output.lock()) && c.output.type_().to_opt().is_none())
+            .filter(|(_, c)| match self.spendable_filter {
+                Some(f) => f(self.env, c),
+                None => is_spendable_lock(self.env, &c.output.lock()) && c.output.type_().to_opt().is_none(),
+            })
             .map(|(k, c)| (*k, (c.output.clone(), c.data.len())))
             .collect()
     }
@@ -649,7 +661,7 @@ impl<'a> Interp<'a> {
                 1 => self.build_dao_deposit(ts, &mut avail),
                 2 => self.build_dao_phase1(&parent, ts, &mut dao_avail),
                 3 => self.build_dao_phase2(&parent, ts, &mut dao_avail),
-                _ => build_tx(self.env, ts, &mut avail),
+                _ => (self.tx_builder.unwrap_or(build_tx))(self.env, ts, &mut avail),
             };
             if let Some(tx) = built_tx {
                 if ts.kind != 0 {
